@@ -17,13 +17,8 @@ func jsonID(typ an.Type) string {
 	switch typ := typ.(type) {
 	case *an.Pointer:
 		panic("pointers not handled by the Dart generator")
-	case *an.Named: // directly call the underlying function
-		switch typ.Underlying.(type) {
-		case *an.Array, *an.Map:
-			return lowerFirst(typeName(typ))
-		default:
-			return jsonID(typ.Underlying)
-		}
+	case *an.Named: // the wrappers are defined next to the typedef, in the file of the type
+		return lowerFirst(typeName(typ))
 	case *an.Basic, *an.Time:
 		return lowerFirst(typeName(typ))
 	case *an.Array:
@@ -85,11 +80,6 @@ func jsonForEnum(en *an.Enum) string {
 }
 
 func jsonForNamed(na *an.Named) string {
-	switch na.Underlying.(type) {
-	case *an.Array, *an.Map:
-	default:
-		return ""
-	}
 	name, id := typeName(na), jsonID(na)
 	elemID := jsonID(na.Underlying)
 	return fmt.Sprintf(`%s %sFromJson(dynamic json) { return %sFromJson(json); }
